@@ -1,8 +1,13 @@
 #!/bin/bash
-# Offline, idempotent: make sure hypothesis is importable from /venv.
+# Offline, idempotent: hypothesis importable from /venv; atheris (thorough tier only) under /verif/.deps.
 set -e
+cd "$(dirname "$0")"
 export PIP_NO_INDEX=1
 if ! /venv/bin/python -c "import hypothesis" 2>/dev/null; then
   /venv/bin/pip install --no-index --find-links /opt/veriftools/wheels hypothesis
+fi
+if ! PYTHONPATH=/verif/.deps /venv/bin/python -c "import atheris" 2>/dev/null; then
+  /venv/bin/pip install --no-index --find-links /opt/veriftools/wheels --target /verif/.deps atheris >/dev/null 2>&1 \
+    || echo "note: atheris not installable; the thorough tier will skip its coverage-guided campaigns"
 fi
 /venv/bin/python -c "import hypothesis, praatio; print('setup ok: hypothesis', hypothesis.__version__)"
